@@ -191,18 +191,18 @@ func (e *exitInv) After(m *Machine, a *Action, o Outcome) error {
 			reqs = append(reqs, req{m.StakerID(a.Actor, a.Asset), m.W.AssetIDs[a.Asset], m.W.Operators[a.Op].Bech32(), amt(a.Amount)})
 		}
 	case "nativeUndelegate":
-		seen := map[int]bool{}
-		dup := false
-		for _, op := range a.Ops {
-			if seen[op] {
-				dup = true
-			}
-			seen[op] = true
+		for i, op := range a.Ops {
+			reqs = append(reqs, req{sim_nativeStakerID(m, a.Actor), nativeAssetID, m.W.Operators[op].Bech32(), amt(a.Amounts[i])})
 		}
-		if !dup {
-			for i, op := range a.Ops {
-				reqs = append(reqs, req{sim_nativeStakerID(m, a.Actor), nativeAssetID, m.W.Operators[op].Bech32(), amt(a.Amounts[i])})
-			}
+	}
+	// a message may name the same operator more than once; then nothing is claimed about
+	// acceptance, but if it is accepted every entry must still get its own record
+	perOp := map[string]int{}
+	dup := false
+	for _, r := range reqs {
+		perOp[r.op]++
+		if perOp[r.op] > 1 {
+			dup = true
 		}
 	}
 	if len(reqs) > 0 {
@@ -217,12 +217,24 @@ func (e *exitInv) After(m *Machine, a *Action, o Outcome) error {
 				within = false
 			}
 		}
-		if within && !o.OK {
+		if within && !dup && !o.OK {
 			return violation("C03.I1.rejected", "%s of an amount within the staker's position was rejected: %s (%s)", a.Kind, a.String(), o.Note)
 		}
 		if o.OK {
 			e.accepted++
 			for _, r := range reqs {
+				if dup {
+					n := 0
+					for k, u := range curRecs {
+						if _, old := e.model[k]; !old && u.Staker == r.staker && u.Asset == r.asset && u.Operator == r.op {
+							n++
+						}
+					}
+					if n != perOp[r.op] {
+						return violation("C03.I2.record-overwritten", "accepted %s names operator %s %d times but created %d record(s): one undelegation overwrote the other", a.Kind, r.op, perOp[r.op], n)
+					}
+					continue
+				}
 				var fresh []UndRow
 				for k, u := range curRecs {
 					if _, old := e.model[k]; !old && u.Staker == r.staker && u.Asset == r.asset && u.Operator == r.op {
